@@ -13,7 +13,7 @@ BOUNDS = {"bucket": "3 honest records of one key (write, overwrite, tombstone or
                     "byte values each, so NUL, newline, tab, invalid UTF-8 and single-bit flips are included); insertion of a line of <= 4 symbolic "
                     "bytes (quick: 2) at a record boundary",
           "positions": "quick: representative positions of every structural class of each record (leading newline, first/middle/last byte of the "
-                       "checksum, the tab, first/middle/last byte of the JSON incl. inside a multi-byte character); thorough: every byte position",
+                       "checksum, the tab, first/middle/last byte of the JSON incl. inside a multi-byte character); thorough: every byte position (sync; every third position in the async flavours)",
           "oracle": "records whose bytes and delimiting newlines are untouched stay effective; a destroyed newline invalidates the two records it separated",
           "outside": "two damage events at once; damage that forges a record with a valid checksum (ideal hash)"}
 
@@ -195,8 +195,8 @@ def tasks(tier, flavours):
                 out.append(dict(module="C06", family="damage", flavour=fl, params=dict(kind="overwrite3", third=third, pos="1:hl", append_after=False, api=api)))
                 out.append(dict(module="C06", family="damage", flavour=fl, params=dict(kind="overwrite3", third=third, pos="2:jl", append_after=True, api=api)))
             else:
-                for p in range(0, 720):
+                for p in range(0, 720, 1 if fl == "sync" else 3):
                     out.append(dict(module="C06", family="damage", flavour=fl, params=dict(kind="overwrite1", third=third, pos=p, append_after=(p % 2 == 0), api=api)))
-                for p in range(0, 720, 7):
+                for p in range(0, 720, 7 if fl == "sync" else 21):
                     out.append(dict(module="C06", family="damage", flavour=fl, params=dict(kind="overwrite3", third=third, pos=p, append_after=True, api=api)))
     return out
